@@ -344,6 +344,28 @@ func compare(root string, inv *Inv, exp *Expect, before, after Snapshot, exit in
 // contentCause names the most specific explanation for wrong destination bytes.
 func contentCause(inv *Inv, t *RTask, got []byte) string {
 	lib := NewLib(inv.Lib)
+	if len(t.Srcs) > 1 {
+		// bundle: does another separator explain the bytes?
+		var parts [][]byte
+		for _, s := range t.SrcAbs {
+			b, err := os.ReadFile(s)
+			if err != nil {
+				break
+			}
+			parts = append(parts, b)
+		}
+		if len(parts) == len(t.Srcs) {
+			for _, sep := range []string{"", "\n", ";", ";\n"} {
+				joined := bytes.Join(parts, []byte(sep))
+				if bytes.Equal(joined, got) {
+					return "bundle-separator"
+				}
+				if out, err := lib.Minify(t.Mime, joined); err == nil && bytes.Equal(out, got) {
+					return "bundle-separator"
+				}
+			}
+		}
+	}
 	switch {
 	case t.Failed && len(got) == 0:
 		return "empty-on-failure"
@@ -361,27 +383,9 @@ func contentCause(inv *Inv, t *RTask, got []byte) string {
 			return "sync-selected-copied-verbatim"
 		}
 		return "original-instead-of-minified"
-	}
-	if len(t.Srcs) > 1 {
-		// bundle: try other separators and orders
-		var parts [][]byte
-		for _, s := range t.SrcAbs {
-			b, _ := os.ReadFile(s)
-			parts = append(parts, b)
-		}
-		if len(parts) == len(t.Srcs) {
-			for _, sep := range []string{"", "\n", ";", ";\n"} {
-				if out, err := lib.Minify(t.Mime, bytes.Join(parts, []byte(sep))); err == nil && bytes.Equal(out, got) {
-					return "bundle-separator"
-				}
-				if bytes.Equal(bytes.Join(parts, []byte(sep)), got) {
-					return "bundle-separator"
-				}
-			}
-		}
+	case len(t.Srcs) > 1:
 		return "bundle-other"
-	}
-	if bytes.HasPrefix(t.Output, got) {
+	case bytes.HasPrefix(t.Output, got):
 		return "truncated"
 	}
 	return "other"
